@@ -15,7 +15,10 @@ CLAUSES = {
     "C01": ["C01_value", "C01_settles"],
     "C02": ["C02_bag", "C01_value", "C01_settles"],
     "C03": ["C03_value", "C01_settles", "C20_exposed"],
+    "C04": ["C04_iterates", "C04_reader", "C20_exposed"],
     "C05": ["C05_value", "C01_settles", "C20_exposed"],
+    "C06": ["C06_entity", "C06_condition", "C06_enable", "C01_value", "C02_bag", "C01_settles"],
+    "C09": ["C09_bag", "C09_props", "C09_extra"],
     "C10": ["R2_equal", "R2_exposed", "C01_settles"],
     "C11": ["C01_value", "R2_equal", "C11_range", "C01_settles"],
     "C20": ["C20_exposed", "C20_label", "C20_input", "C01_value", "C02_bag"],
@@ -239,12 +242,92 @@ def c03(ctx):
     mem_check(ctx, ("cell", "shared", "readers", "two"), "C03_value", 26)
 
 
+@prop("C04")
+def c04(ctx):
+    progs = with_ids(gen.generate("GenSelf"), "sf")
+    ctx.cov["corpus_size"] = 2 * len(progs)
+    sel = progs
+    ctx.cov["exhaustive"] = ctx.tier != "quick"
+    ctx.cov["rule"] = ("programs = GenSelf (m.write(f(m.read())) with f a chain of 1..4 steps: counters, modulo clocks, accumulators over a held "
+                       "input, LFSR mixes, conditional resets; 1-3 readers), each compiled with and without optimisation (arithmetic-feedback and "
+                       "two-gate implementations both arise); for every constant valuation TLC runs the circuit 52 ticks from the all-zero state "
+                       "and checks EXISTS L in 1..6: FORALL t >= W: value(t+L) = f(value(t)) on the direct reader, and every other reader as a "
+                       "delayed function of the cell; non-trivial = the observed cell value still changes at the end of the run")
+    ctx.assumptions = ASSUME_BASE + ["warm-up W = 4 ticks (feed-forward latency of operands computed outside the loop) is not judged"]
+    both = []
+    for p in sel:
+        both.append(dict(p))
+        q = dict(p)
+        q["id"] = p["id"] + "-noopt"
+        q["job"] = {"optimize": False}
+        both.append(q)
+
+    def item(p, rs):
+        return {"id": p["id"], "stmts": p["stmts"], "u": 1, "dom": p["dom"], "bps": [prep_bp(rs[""]["bp"])]}
+    run_refine(ctx, both, {"DomCap": 1000}, module="RefineTick", cfg=refine.CFG_TICK, item_fn=item, batch_size=8)
+
+
 @prop("C05")
 def c05(ctx):
     ctx.cov["rule"] = ("programs = GenMem latches (both argument orders x value 1 / constant / signal x set,reset as boolean signals, "
                        "comparisons on two inputs, comparisons on one input with disjoint / touching / overlapping thresholds); TLC explores "
                        "ALL input histories of Circuit(BP) x abstract SR/RS latch with the priority named first in the call")
     mem_check(ctx, ("latch1", "latch2", "latchx"), "C05_value", 36)
+
+
+def ent_progs(prefix):
+    return [dict(p, grp=p["grp"][4:]) for p in with_ids(gen.generate("GenEntity"), "en") if p["grp"].startswith(prefix)]
+
+
+@prop("C06")
+def c06(ctx):
+    progs = ent_progs("c06:")
+    ctx.cov["corpus_size"] = 2 * len(progs)
+    sel = pick(progs, 40, ctx.seed, always=SMOKE.get("C06", ())) if ctx.tier == "quick" else progs
+    ctx.cov["exhaustive"] = ctx.tier != "quick"
+    ctx.cov["rule"] = ("programs = GenEntity: 5 circuit-controllable prototypes x 15 enable forms (inlinable comparisons, signal-vs-signal, "
+                       "general expressions, logic, bare signals), shared sources / several entities, contents read through .output (any/all "
+                       "inlined, selection, merges of two chests, the documented balanced-loader pattern); each compiled with and without "
+                       "optimisation; for every valuation of inputs and chest contents TLC evaluates the entity's circuit condition on the "
+                       "network actually wired to it and compares with (expr > 0)")
+    ctx.assumptions = ASSUME_BASE + ["contents of a read entity range over {0, 1, 7, 100} per item (iron-plate, copper-plate)"]
+    both = []
+    for p in sel:
+        both.append(dict(p))
+        q = dict(p)
+        q["id"] = p["id"] + "-noopt"
+        q["job"] = {"optimize": False}
+        both.append(q)
+
+    def item(p, rs):
+        items = sorted({c["item"] for c in p.get("cins", [])})
+        it = {"id": p["id"], "stmts": p["stmts"], "u": 1, "dom": p["dom"], "bps": [prep_bp(rs[""]["bp"], extra=items)]}
+        if p.get("cins"):
+            it["cins"] = p["cins"]
+        return it
+    run_refine(ctx, both, {"DomCap": 300 if ctx.tier == "quick" else 2500}, item_fn=item, batch_size=12)
+
+
+@prop("C09")
+def c09(ctx):
+    progs = ent_progs("c09:")
+    ctx.cov["corpus_size"] = len(progs)
+    sel = pick(progs, 60, ctx.seed, always=SMOKE.get("C09", ())) if ctx.tier == "quick" else progs
+    ctx.cov["exhaustive"] = ctx.tier != "quick"
+    ctx.cov["rule"] = ("programs = GenEntity C09 families: 9 prototypes (1x1 .. 3x3) x coordinates incl. negatives, static properties, loops "
+                       "over every (start, stop, step) of a small box incl. empty and descending ranges, list iterators, nested loops, int "
+                       "arithmetic, functions called repeatedly / nested / inside loops, mixes with circuits; TLC compares the bag of non-"
+                       "compiler-made entities of the blueprint with the interpreter's list of executed place() statements (top-left tile = "
+                       "centre - footprint/2, properties present); compiled with no poles and with medium poles")
+    ctx.assumptions = ASSUME_BASE + ["compiler-made entities are recognised by prototype (combinators, electric poles); generators never place those"]
+    both = []
+    for p in sel:
+        both.append(dict(p))
+        q = dict(p)
+        q["id"] = p["id"] + "-poles"
+        q["job"] = {"poles": "medium"}
+        both.append(q)
+    run_refine(ctx, both, {"DomCap": 4}, batch_size=30)
 
 
 @prop("C10")
